@@ -1,13 +1,15 @@
 import GV.Proofs.Bits32
 import GV.Proofs.CaseMap
 import GV.Proofs.NoSyncRefine
+import GV.Proofs.FloatRound
 import GV.Model.Atomic
-import GV.Model.FloatBits
 
 /-!
   C13 — JavaScript-backed standard-library overrides equal the Go originals.
 
-  math/bits   `mul32_correct`, `add32_correct`, `div32_correct`, `rem32_correct` (all operands)
+  math/bits   `mul32_correct`, `add32_correct` (all operands); `Div32`: `div32_panics`, `rem32_panics`, `div32_no_fuel`;
+              the outcome relation `div32_full` (quo·y + rem = hi·2^32 + lo ∧ rem < y) is stated but NOT proved here —
+              the Knuth-D digit estimate is only checked by the correspondence runs (driver op `sdiv32` vs native Go)
   unicode     `to_eq_scan`: the override's binary search = the linear scan on EVERY sorted table, all runes, all cases
               (the real tables' sortedness: GV.Props.C13Env over the regenerated tables)
   sync/atomic `swap_spec`, `cas_spec`, `add_wraps`, `load_store_spec`; `value_store_eq`, `value_swap_eq`,
@@ -29,6 +31,28 @@ theorem mul32_correct (x y : Nat) (hx : x < 4294967296) (hy : y < 4294967296) :
 theorem add32_correct (x y c : Nat) (hx : x < 4294967296) (hy : y < 4294967296) (hc : c ≤ 1) :
     (add32 x y c).1 + (add32 x y c).2 * 4294967296 = x + y + c ∧ (add32 x y c).1 < 4294967296 ∧ (add32 x y c).2 ≤ 1 :=
   GV.Proofs.Bits32.add32_correct x y c hx hy hc
+
+/-- `Div32` panics as upstream: divide error on y = 0, overflow error on 0 < y ≤ hi -/
+theorem div32_panics (hi lo y : Nat) :
+    (y = 0 → div32 hi lo y = .divideError) ∧ (y ≠ 0 → y ≤ hi → div32 hi lo y = .overflowError) :=
+  GV.Proofs.Bits32.div32_panics hi lo y
+
+theorem rem32_panics (hi lo y : Nat) (h : y = 0) : rem32 hi lo y = .divideError := GV.Proofs.Bits32.rem32_panics hi lo y h
+
+/-- with a normalised divisor (top digit ≥ 2^15, what `y <<= LeadingZeros32(y)` establishes) each of the two correction
+    loops of `Div32` exits within two decrements: the model never runs out of its loop budget -/
+theorem div32_no_fuel (q rhat yn1 yn0 un : Nat) (hy : 32768 ≤ yn1) (hy' : yn1 < 65536) (hr : rhat < 65536) :
+    corrLoop loopFuel q rhat yn1 yn0 un ≠ none :=
+  GV.Proofs.Bits32.corrLoop_terminates q rhat yn1 yn0 un hy hy' hr
+
+/-- the full outcome relation of `Div32` — stated, NOT proved (the two-digit Knuth-D estimate); every run compares the
+    model with this relation computed directly (`bits sdiv32`) and with native Go on the generated operands -/
+def div32_full : Prop := ∀ hi lo y : Nat, hi < y → y < 4294967296 → lo < 4294967296 →
+  div32 hi lo y = .ok ((hi * 4294967296 + lo) / y) ((hi * 4294967296 + lo) % y)
+
+/-- 8-bit-digit sanity instances of `div32_full` (a test, not a theorem about all operands) -/
+example : div32 1 0 2 = .ok 2147483648 0 ∧ div32 123456 4000000000 3000000000 = .ok 176747 2482494976 ∧
+    div32 4294967294 4294967295 4294967295 = .ok 4294967295 4294967294 := by decide
 
 /-! ### unicode case mapping -/
 
@@ -153,5 +177,63 @@ theorem once_runs_once (s : State) (f : OnceFn) (hd : s.onceDoing = false) :
 theorem range_calls (n : Int) (l : List (Int × Int)) (hn : 0 ≤ n) :
     rangeCalls n l 0 = if l.length = 0 then 0 else if n ≤ 1 then 1 else min n.toNat l.length := by
   rw [GV.Proofs.NoSyncRefine.rangeCalls_closed n l 0 hn]; simp
+
+/-! ### math — bit patterns and classes (GV.Model.FloatBits) -/
+open GV.FloatBits
+
+/-- `Float64bits ∘ Float64frombits = id` through the typed-array aliasing (word split / join), all 64-bit patterns
+    (the engine may canonicalise NaN payloads when the float is loaded: outside the model, excluded in the runs) -/
+theorem float64bits_frombits (b : Nat) (h : b < two64) : float64bits (float64frombits b) = b :=
+  GV.Proofs.FloatBits.float64bits_frombits b h
+
+theorem float64frombits_bits (f : Nat) (h : f < two64) : float64frombits (float64bits f) = f :=
+  GV.Proofs.FloatBits.float64frombits_bits f h
+
+/-- `Signbit(x)` = bit 63 for every non-NaN pattern (`x < 0 || 1/x == negInf`) -/
+theorem signbit_spec (b : Nat) (hn : isNaN b = false) : signbit b = (sign b == 1) := GV.Proofs.FloatBits.signbit_spec b hn
+
+/-- `Copysign(x, y)` = magnitude bits of x with the sign bit of y, non-NaN arguments -/
+theorem copysign_spec (x y : Nat) (hx : x < two64) (hnx : isNaN x = false) (hny : isNaN y = false) :
+    copysign x y = x % two63 + sign y * two63 := GV.Proofs.FloatBits.copysign_spec x y hx hnx hny
+
+theorem isnan_spec (f : Nat) : isNaNJS f = (expo f == 2047 && mant f != 0) := rfl
+
+/-- `IsInf(f, sign)` = upstream's definition at bit level -/
+theorem isinf_spec (f : Nat) (sg : Int) :
+    isInfJS f sg = decide ((sg ≥ 0 ∧ f = posInf) ∨ (sg ≤ 0 ∧ f = negInf)) := GV.Proofs.FloatBits.isinf_spec f sg
+
+theorem inf_spec (sg : Int) : inf sg = if sg ≥ 0 then posInf else negInf := rfl
+
+/-- `Abs` (upstream, through the overridden reinterpretations) clears bit 63 -/
+theorem abs_spec (x : Nat) (h : x < two64) : abs x = x % two63 := GV.Proofs.FloatBits.abs_spec x h
+
+/-- Go's mantissa mask = exact conversion of the truncated magnitude (what ECMAScript's definitions compute) -/
+theorem encode_trunc (x : Nat) (hx : x < two64) (h1 : 1023 ≤ expo x) (h2 : expo x < 1075) :
+    truncGo x = sign x * two63 + encodeNat (truncMag x) := GV.Proofs.FloatBits.encode_trunc x hx h1 h2
+
+/-- `Floor` = `Math.floor` (ECMAScript definition on the exact value) = upstream `Floor`, ALL bit patterns -/
+theorem floor_eq (x : Nat) (hx : x < two64) : floorJS x = floorGo x := GV.Proofs.FloatBits.floor_eq x hx
+
+/-- `Ceil` = `Math.ceil` = upstream `Ceil`, ALL bit patterns (incl. results -0 for -1 < x < 0) -/
+theorem ceil_eq (x : Nat) (hx : x < two64) : ceilJS x = ceilGo x := GV.Proofs.FloatBits.ceil_eq x hx
+
+/-- `Trunc`: NOT equal to upstream for all patterns (`GV.Proofs.FloatBits.trunc_full` is refuted twice) -/
+theorem trunc_counterexample_large : ¬ GV.Proofs.FloatBits.trunc_full := GV.Proofs.FloatBits.trunc_counterexample_large
+theorem trunc_counterexample_tiny : trunc 0x8000000000000001 ≠ truncGo 0x8000000000000001 :=
+  GV.Proofs.FloatBits.trunc_counterexample_tiny
+
+/-- `Trunc` = upstream for |x| < 2^31 and NaN, except negative non-zero |x| ≤ 2^-1024 -/
+theorem trunc_partial (x : Nat) (hx : x < two64) (hsmall : expo x < 1054 ∨ isNaN x = true)
+    (htiny : ¬ (recipIsNegInf x = true ∧ isZero x = false)) : trunc x = truncGo x :=
+  GV.Proofs.FloatBits.trunc_partial x hx hsmall htiny
+
+/-- `Modf`: NOT equal to upstream for all patterns -/
+theorem modf_counterexample_frac : ¬ GV.Proofs.FloatBits.modf_full := GV.Proofs.FloatBits.modf_counterexample_frac
+theorem modf_counterexample_tiny : modf 0x8000000000000001 ≠ modfGo 0x8000000000000001 :=
+  GV.Proofs.FloatBits.modf_counterexample_tiny
+
+/-- `Modf` = upstream (integer part bits; sign and zero-ness of the fraction) except for negative f with |f| < 1, f ≠ -0 -/
+theorem modf_partial (f : Nat) (h : f < two64) (hx : ¬ (sign f = 1 ∧ expo f < 1023 ∧ isZero f = false)) :
+    modf f = modfGo f := GV.Proofs.FloatBits.modf_partial f h hx
 
 end GV.Props.C13
